@@ -209,7 +209,7 @@ func main() {
 		if len(terms) == 0 {
 			return
 		}
-		run.WriteCasesV(fmt.Sprintf("cases_%d.v", start), []string{"Lib.Json", "Gql.Types", "Gql.Value", "Gql.Query", "Gql.Check", "Gql.Envelope"}, "", "mismatches16_from_sparse", 0, terms)
+		run.WriteCasesV(fmt.Sprintf("cases_%d.v", start), []string{"Lib.Json", "Gql.Types", "Gql.Value", "Gql.Query", "Gql.Check", "Gql.Envelope", "Gql.Socket", "Gql.CheckSocket"}, "", "mismatches16s_from_sparse", 0, terms)
 		terms = nil
 		start = end
 	}
@@ -234,6 +234,8 @@ func main() {
 		units := 0
 		var ws gqlgen.WSResult
 		haveWS := false
+		var script scriptResult
+		haveScript := false
 		for mi, md := range c.Modes {
 			b, err := gqlgen.Build(c.Spec, md)
 			if err != nil {
@@ -316,6 +318,29 @@ func main() {
 					wsHangs++
 				}
 				checkWS(ws, ref.Failures, failing, fail)
+				if !ws.TimedOut && len(c.Choices) > 2 {
+					// a whole script of inbound envelopes on one connection
+					script = runScript(b, text, q.Vars, fifoSched{}, genScript(c.Choices[2]), 2)
+					haveScript = true
+					if script.Hung {
+						wsHangs++
+					}
+					checkScript(script, ref.Failures, failing, fail)
+					for _, st := range script.Steps {
+						run.Hist("script-step:" + st.Msg + "/" + st.Q)
+						for _, e := range st.Events {
+							if e.Kind == "error" {
+								cls := "own"
+								if e.Msg == generic {
+									cls = "generic"
+								} else if allowedMessage(e.Msg, ref.Failures) {
+									cls = "safe-text"
+								}
+								run.Hist("script-error-envelope:" + cls)
+							}
+						}
+					}
+				}
 			}
 		}
 		if bad {
@@ -348,7 +373,11 @@ func main() {
 		if haveWS && !ws.TimedOut {
 			wsTerm = "(Some " + coqWS(ws) + ")"
 		}
-		terms = append(terms, fmt.Sprintf("(%d, (%s, %s))", idx, gqlgen.CoqCase(schemas, c.Data, q.Eff(), []string{gqlgen.CoqQuery(q)}, runs), wsTerm))
+		scTerm := "None"
+		if haveScript && !script.Hung {
+			scTerm = "(Some " + coqScript(script, ref.Failures) + ")"
+		}
+		terms = append(terms, fmt.Sprintf("(%d, (%s, %s, %s))", idx, gqlgen.CoqCase(schemas, c.Data, q.Eff(), []string{gqlgen.CoqQuery(q)}, runs), wsTerm, scTerm))
 		if len(terms) >= shard {
 			flush(idx + 1)
 		}
